@@ -782,6 +782,11 @@ Inductive case :=
 | CGate (path : bytes) (file_exists : bool) (obs_panic : bool)
 (* Replace(template) with the substitution values observed; obs = output *)
 | CReplace (tmpl : bytes) (env : list (N * bytes * bytes)) (empty : bytes) (obs_panic : bool) (obs : bytes)
+(* a real TLS handshake + request against a running Server (tlsHelloListener.Accept, tls.Server,
+   tlsHandler): the client wrote the ClientHello record [wire] in pieces of [sizes] (then the
+   rest); obs_rec = what the listener recorded for the connection, obs_direct = the
+   implementation's parse of the record body, ok = handshake and request succeeded *)
+| CTls (wire : bytes) (sizes : list nat) (ok : bool) (obs_rec : option info) (obs_direct : info)
 (* code paths that are exercised but not modelled (net/http parsing in front of basicauth,
    matchers, cookies ...): only panic / no panic is judged *)
 | CTotal (kind : N) (obs_panic : bool).
@@ -894,5 +899,18 @@ Definition judge (c : case) : N :=
                    | Ok o => negb op && beq o obs
                    end in
       verdict agree (negb op)
+  | CTls wire sizes ok orec odirect =>
+      let segs := cut wire (sizes ++ [length wire]) in
+      let len := N.to_nat (u16 (nth 3 wire 0) (nth 4 wire 0)) in
+      (* network timing may merge writes (never split them), which keeps safe segmentations safe:
+         the model is compared on those only *)
+      let agree :=
+        if forallb (safe_cut len) (cuts segs) then
+          match conn_run conn0 segs with
+          | Ok st => oinfo_beq (c_recorded st) orec
+          | Panic => false
+          end
+        else true in
+      verdict agree (ok && oinfo_beq orec (Some odirect))
   | CTotal _ op => verdict true (negb op)
   end.
